@@ -3,6 +3,7 @@ package checks
 import (
 	"bytes"
 	"crypto/sha256"
+	"encoding/binary"
 	"encoding/json"
 	"errors"
 	"fmt"
@@ -13,6 +14,7 @@ import (
 	"strings"
 	"sync"
 	"time"
+	"verifmc/oracle/fatck"
 
 	diskfs "github.com/diskfs/go-diskfs"
 	"github.com/diskfs/go-diskfs/backend"
@@ -78,7 +80,78 @@ func c11Tree() *treeSpec {
 }
 
 // fsBytes builds a filesystem of the given kind as a standalone image and returns its bytes.
+// foreignEmptyFile rewrites a FAT16/FAT32 image the way other implementations (Linux vfat, Windows, mtools) store an empty
+// file: the directory entry of EMPTY.TXT gets first cluster 0 and the cluster the library had given it is marked free in
+// both copies of the allocation table. The result is checked with the independent FAT reader.
+func foreignEmptyFile(b []byte, fatType int) error {
+	at := bytes.Index(b, []byte("EMPTY   TXT"))
+	if at < 0 || at%32 != 0 {
+		return errors.New("directory entry of EMPTY.TXT not found")
+	}
+	e := b[at : at+32]
+	cl := uint32(binary.LittleEndian.Uint16(e[26:28])) | uint32(binary.LittleEndian.Uint16(e[20:22]))<<16
+	if cl < 2 || binary.LittleEndian.Uint32(e[28:32]) != 0 {
+		return fmt.Errorf("EMPTY.TXT: first cluster %d, size %d", cl, binary.LittleEndian.Uint32(e[28:32]))
+	}
+	copy(e[26:28], []byte{0, 0})
+	copy(e[20:22], []byte{0, 0})
+	bps := int(binary.LittleEndian.Uint16(b[11:13]))
+	reserved := int(binary.LittleEndian.Uint16(b[14:16]))
+	nfat := int(b[16])
+	fatSectors := int(binary.LittleEndian.Uint16(b[22:24]))
+	if fatSectors == 0 {
+		fatSectors = int(binary.LittleEndian.Uint32(b[36:40]))
+	}
+	for i := 0; i < nfat; i++ {
+		base := (reserved + i*fatSectors) * bps
+		if fatType == 16 {
+			copy(b[base+int(cl)*2:], []byte{0, 0})
+		} else {
+			copy(b[base+int(cl)*4:], []byte{0, 0, 0, 0})
+		}
+	}
+	if fatType == 32 {
+		// FSInfo free count (sector 1, offset 488): one more free cluster, if the count is maintained
+		fi := bps
+		if binary.LittleEndian.Uint32(b[fi:fi+4]) == 0x41615252 {
+			if n := binary.LittleEndian.Uint32(b[fi+488 : fi+492]); n != 0xFFFFFFFF {
+				binary.LittleEndian.PutUint32(b[fi+488:], n+1)
+				if bk := int(binary.LittleEndian.Uint16(b[50:52])); bk > 0 && (bk+1)*bps+492 <= len(b) {
+					bf := (bk + 1) * bps
+					if binary.LittleEndian.Uint32(b[bf:bf+4]) == 0x41615252 {
+						binary.LittleEndian.PutUint32(b[bf+488:], n+1)
+					}
+				}
+			}
+		}
+	}
+	return nil
+}
+
 func fsBytes(kind string, tree *treeSpec) ([]byte, error) {
+	if kind == "fat16x" || kind == "fat32x" {
+		t2 := &treeSpec{Dirs: tree.Dirs, Files: map[string][]byte{"EMPTY.TXT": nil}}
+		for k, v := range tree.Files {
+			t2.Files[k] = v
+		}
+		b, err := fsBytes(strings.TrimSuffix(kind, "x"), t2)
+		if err != nil {
+			return nil, err
+		}
+		ft := 16
+		if kind == "fat32x" {
+			ft = 32
+		}
+		if err := foreignEmptyFile(b, ft); err != nil {
+			return nil, err
+		}
+		d := memdev.New(int64(len(b)))
+		d.Poke(b, 0)
+		if res := fatck.Check(d, 0, int64(len(b)), ft); len(res.Problems) > 0 {
+			return nil, fmt.Errorf("crafted image is not sound for the independent FAT reader: %s", strings.Join(res.Problems, "; "))
+		}
+		return b, nil
+	}
 	switch kind {
 	case "fat12", "fat16", "fat32":
 		cfg := fatCfg{Type: 12, Size: 64 << 10}
@@ -269,6 +342,20 @@ func roLetters(final, writableDevice bool) []roLetter {
 			return err
 		}},
 		{"Label", false, func(c *roCtx) error { _ = c.fs.Label(); return nil }},
+		{"Open+Read(EMPTY.TXT)", false, func(c *roCtx) error {
+			// an empty file as other implementations store it (no cluster at all); whether the library can read it is not the
+			// point here (an error is fine) - reading it must not write
+			if !strings.HasSuffix(c.im.Kind, "x") {
+				return errors.New("n/a")
+			}
+			if f, err := c.fs.OpenFile("EMPTY.TXT", os.O_RDONLY); err == nil {
+				_, _ = io.ReadAll(f)
+				f.Close()
+			}
+			_, _ = c.fs.ReadFile("EMPTY.TXT")
+			_, _ = c.fs.Stat("EMPTY.TXT")
+			return nil
+		}},
 		{"ReadPartitionContents", false, func(c *roCtx) error {
 			if c.im.Part == 0 {
 				return nil
@@ -559,6 +646,15 @@ func c11Targets(quick bool) []c11Target {
 	for _, k := range []string{"fat32", "ext4"} {
 		for _, m := range []string{"rw-memdev", "ro-memdev", "ro-failing"} {
 			ts = append(ts, c11Target{k, "gptbad", m})
+		}
+	}
+	// FAT images holding an empty file the way other implementations store it (no cluster)
+	for _, k := range []string{"fat16x", "fat32x"} {
+		for _, m := range []string{"rw-memdev", "ro-memdev"} {
+			ts = append(ts, c11Target{k, "none", m})
+			if !quick {
+				ts = append(ts, c11Target{k, "gpt", m})
+			}
 		}
 	}
 	return ts
